@@ -94,6 +94,7 @@ type SpecFun struct {
 	Body   *SExpr // nil => uninterpreted
 	Mode   string
 	Pos    string
+	Pkg    string
 }
 
 type SpecConst struct {
@@ -883,6 +884,7 @@ func (sp *Specs) loadFile(path string, defaultPkg string) error {
 				return fmt.Errorf("%s: duplicate specfun %s", pos, f.Name)
 			}
 			f.Mode = mode
+			f.Pkg = defaultPkg
 			sp.Funs[f.Name] = f
 			sp.FunOrder = append(sp.FunOrder, f.Name)
 			cur = nil
